@@ -41,7 +41,7 @@ ROUTE = {
     "disp": "disp",
     "ppphdr": "ppp", "pppopts": "ppp", "papreq": "ppp", "papmsg": "ppp", "chapchal": "ppp", "chapresp": "ppp", "echo": "ppp",
     "rtopts": "ppp", "papbld": "ppp", "chapbld": "ppp",
-    "tags": "tags",
+    "tags": "tags", "bldtags": "tags", "bldavp": "l2tp", "bldl2": "l2tp", "bldrelay": "relay", "bld82": "relay", "bldd6": "dhcp6",
     "l2hdr": "l2tp", "l2avp": "l2tp", "l2v3": "l2tp",
     "d6msg": "dhcp6", "d6relay": "dhcp6", "d6reply": "dhcp6",
     "o82ins": "relay", "o82strip": "relay", "setopt": "relay", "getopt": "relay", "v6unwrap": "relay", "v6txid": "relay",
@@ -53,7 +53,8 @@ ROUTE = {
     "attr80": "radius", "fzrad": "radius",
     "fzgopkt": "shm",
 }
-MODELLED = sorted(k for k in ROUTE if not k.startswith("fz") and not k.startswith("bk"))
+MODELLED = sorted(k for k in ROUTE if not k.startswith("fz") and not k.startswith("bk") and not (k.startswith("bld") and k not in ("papbld", "chapbld")))
+BUILDERS = sorted(k for k in ROUTE if k.startswith("bld"))
 SCENARIOS = sorted(k for k in ROUTE if k.startswith("bk"))
 FUZZ_ONLY = sorted(k for k in ROUTE if k.startswith("fz"))
 
@@ -648,6 +649,43 @@ def gen_cases(rng, tier, budget):
         add(case("attr80", [], b"\x2b\x01\x00\x26" + bytes(16) + bytes([1, L]) + bytes(3) + b"\x50\x12" + bytes(16)))
     family(rng, tier, gen_radius, nv, 2 * nm, lambda b: (add(case("attr80", [], b)), add(case("fzrad", [], b))))
 
+    # --- build -> parse: Go builder output fed to the Go parser, against model builder + model parser -----
+    for _ in range(120 * scale):
+        k = rng.randint(0, 5)
+        tys = [rng.choice([0x0101, 0x0102, 0x0103, 0x0104, 0x0105, 0x0110, 0x0120, 0x0201, 0x0203, 0x0106, rng.randrange(1, 65536)]) for _ in range(k)]
+        vals = []
+        for t in tys:
+            if t == 0x0120:
+                vals.append(be16(rng.choice([1492, 1500, 1491, 65535])))
+            elif t == 0x0105:
+                sub, _ = tlv8([(rng.choice([1, 2, 3]), rb(rng, rng.randint(0, 12))) for _ in range(rng.randint(0, 3))])
+                vals.append(be32(rng.choice([0xde9, 9, 0xde9, 77])) + sub)
+            else:
+                vals.append(rb(rng, rng.choice([0, 1, 8, 40, 300])))
+        add(case("bldtags", tys, *vals))
+        k = rng.randint(0, 5)
+        nums, vals = [], []
+        for _ in range(k):
+            nums += [rng.randrange(2), rng.choice([0, 0, 9, 3561, 65535]), rng.choice([0, 1, 7, 36, 14, 65535, rng.randrange(65536)])]
+            vals.append(rb(rng, rng.choice([0, 2, 16, 100, 1017])))
+        add(case("bldavp", nums, *vals))
+        S, O = rng.randrange(2), rng.randrange(2)
+        add(case("bldl2", [rng.randrange(2), rng.randrange(2), S, O, rng.randrange(2), rng.choice([2, 2, 3, 0, 15]),
+                           rng.randrange(65536), rng.randrange(65536), rng.randrange(65536) * S, rng.randrange(65536) * S,
+                           rng.choice([0, 1, 5, 40]) * O], rb(rng, rng.choice([0, 1, 12, 200]))))
+        msg = gen_d6msg(rng)[0]
+        add(case("bldrelay", [rng.randrange(33), rng.randrange(1 << 32), rng.choice([1, 1, 2, 3, 8])], rb(rng, 16), rb(rng, 16),
+                 rb(rng, rng.choice([0, 4, 9])), rb(rng, rng.choice([0, 1, 6])), rb(rng, rng.choice([0, 0, 5])), msg))
+        hasna, haspd, hasst = rng.randrange(2), rng.randrange(2), rng.randrange(2)
+        nd = rng.choice([0, 0, 1, 2, 3])
+        excodes = [rng.choice([6, 7, 8, 24, 31, 56, 82, 1000, 65535]) for _ in range(rng.randint(0, 3))]
+        nums = [rng.choice([2, 7]), hasna] + [rng.randrange(1 << 32) for _ in range(5)] + [haspd] + \
+               [rng.randrange(1 << 32) for _ in range(5)] + [rng.choice([48, 56, 64, 0, 128]), hasst, rng.choice([0, 2, 6, 65535]), nd] + excodes
+        bs = [rb(rng, 3), rb(rng, rng.choice([0, 10, 14])), rb(rng, rng.choice([0, 10, 14])), rb(rng, 16), rb(rng, 16),
+              rb(rng, rng.choice([0, 5, 30]))] + [rb(rng, 16) for _ in range(nd)] + [rb(rng, rng.choice([0, 1, 9])) for _ in excodes]
+        add(case("bldd6", nums, *bs))
+        nob = lambda n: bytes(x for x in rb(rng, n) if x != 0x7b) or b"x"
+        add(case("bld82", [rng.randrange(2), rng.randrange(2)], nob(rng.choice([1, 5, 30, 100])), nob(rng.choice([1, 6, 17, 100]))))
     # --- backlog / wedge scenarios: bursts against the bounded worker pools and hand-off queues -------------
     # bkdhcp6 N,sessions,msgtype (pool of 16 under the session lock); bkrakick N,K; bkl2gw N,K
     ns = [1, 2, 15, 16, 17, 18, 32, 33, 40] if q else list(range(1, 41)) + [64, 100]
@@ -794,5 +832,6 @@ def distribution(cases, impl):
         r["len_le_2"] += n <= 2
     d["_modelled_entries"] = MODELLED
     d["_backlog_scenarios"] = SCENARIOS
+    d["_builder_entries"] = BUILDERS
     d["_fuzz_only_entries"] = FUZZ_ONLY
     return d
